@@ -9,4 +9,5 @@ Extraction "../oracle/c12/model.ml"
   world0 step w_cur w_roots st_sm depth
   get_balance get_energy get_master get_codehash get_code get_raw_storage exists_
   mkAcc mkMeta
-  sget commit checkpoint delete_history open_root.
+  sget commit checkpoint delete_history open_root
+  iter_nodes checkpoint_nodes reach_list link_check prune_round deleted_keys dptn.
